@@ -20,7 +20,7 @@ NPROC = common.NPROC
 
 PRE = '''From Coq Require Import List NArith Bool.
 Import ListNotations.
-Require Import Cat CatFacts Unify GramPrims GenTables GenEn.
+Require Import Cat CatFacts Unify GramPrims GenTables GenEn EnSpec.
 Require Import WC03.Tbl.
 Open Scope N_scope.
 Definition g (i : N) : cat := nth (N.to_nat i) T (Atom [] FNone).
@@ -42,6 +42,8 @@ Definition BS (i j : N) (s : list (N * N)) (e : list (N * N)) : bool :=
 (* apply_unary_rules(x, table) *)
 Definition U (i : N) (t : list (N * list N)) (e : list (N * N)) : bool :=
   same (GenEn.apply_unary_rules (g i) (map (fun p => (g (fst p), map g (snd p))) t)) (Ok_ (map mkr e)).
+(* the category lies in the domain of the theorems (well-formed, English feature system) *)
+Definition D (i : N) (b : bool) : bool := Bool.eqb (wfb puncts (g i) && unary_sysb (g i)) b.
 (* a whole row of an inventory stored at T[off .. off+n): the listed columns fire as listed, every other column yields [] *)
 Fixpoint lookup_ (j : N) (l : list (N * list (N * N))) : list (N * N) := match l with [] => [] | (k, v) :: r => if N.eqb j k then v else lookup_ j r end.
 Fixpoint nseq_ (i : N) (n : nat) : list N := match n with O => [] | S m => i :: nseq_ (i + 1) m end.
@@ -64,16 +66,25 @@ class Table:
         return i
 
 
-def evaluate(cats, pairs):
-    """run the implementation and the oracle on index pairs, in NPROC processes; returns {(i, j): (res, fails, strict)} of the interesting pairs"""
+def evaluate(cats, pairs, budget=None):
+    """run the implementation and the oracle on index pairs, in NPROC processes; returns ({(i, j): (res, fails, strict)} of the
+    interesting pairs, the list of pairs that were evaluated).  With a time budget (seconds) the chunks are taken in the given
+    order until the budget is used up (the evidence records how many pairs were reached)."""
     O.CATS[:] = cats
     if not pairs:
-        return {}
-    size = max(200, min(5000, len(pairs) // (NPROC * 4) + 1))
+        return {}, []
+    size = max(200, min(4000, len(pairs) // (NPROC * 8) + 1))
     chunks = [pairs[k:k + size] for k in range(0, len(pairs), size)]
+    t0, got, done = time.time(), {}, []
     with mp.get_context('fork').Pool(min(NPROC, len(chunks))) as pool:
-        outs = pool.map(O.work, chunks)
-    return {(i, j): (res, fails, strict) for out in outs for i, j, res, fails, strict in out}
+        for k, out in enumerate(pool.imap(O.work, chunks)):
+            done.extend(chunks[k])
+            for i, j, res, fails, strict in out:
+                got[(i, j)] = (res, fails, strict)
+            if budget is not None and time.time() - t0 > budget:
+                pool.terminate()
+                break
+    return got, done
 
 
 def subterms(c, acc):
@@ -131,7 +142,7 @@ def run(ctx):
             if res[0] == 'err':
                 ctx.count(f'outcome:{kind}:{res[1]}')
             if strict:
-                ctx.count('observed:bx_or_gbx_over_a_bare_N_NP_on_the_left_functor_side')
+                ctx.count(f'observed:bx_or_gbx_over_a_bare_N_NP_on_the_left_functor_side:{kind}')
                 ctx.sample({'bx_over_left_bare': [str(x), str(y), sig(res)]}, limit=8)
             for k, why in fails:
                 nfail[0] += 1
@@ -142,11 +153,14 @@ def run(ctx):
         ctx.count(f'firing:{kind}', fired)
         return fired
 
-    def stream(kind, pairs, n_fire, n_quiet):
+    def stream(kind, pairs, n_fire, n_quiet, budget=None):
         """evaluate pairs (pool indices); put up to n_fire firing and n_quiet non-firing pairs into the Coq cases"""
         pairs = list(dict.fromkeys(pairs))
-        got = evaluate(pool.cats, pairs)
+        t0 = time.time()
+        got, pairs = evaluate(pool.cats, pairs, budget)
+        t1 = time.time()
         digest(kind, pairs, got)
+        ctx.stats[f'stage_s:{kind}'] = [round(t1 - t0, 1), round(time.time() - t1, 1)]
         firing = [p for p in pairs if p in got and (got[p][0][0] == 'err' or got[p][0][1])]
         quiet = [p for p in pairs if p not in got or not (got[p][0][0] == 'err' or got[p][0][1])]
         if n_fire is not None and len(firing) > n_fire:
@@ -167,6 +181,9 @@ def run(ctx):
             if not (gen.wf_py(c) and O.in_domain(c)):
                 ctx.fail('shipped_not_wf', f'inventory category {c} of targets.{lang} is outside the domain of the theorems', {'text': str(c), 'lang': lang})
         inv[lang] = [pool.add(c) for c in cs]
+        for c in cs:       # the Coq-side domain predicate holds of every shipped category
+            cases.append(f'D {ctab.add(c)} true')
+            descr.append(('domain', str(c), lang, True))
     new_cats = {}      # result categories outside the inventories, for the closure rounds
     known = set(pool.idx)
     rows = []          # thorough: one Coq case per row of each inventory
@@ -177,7 +194,7 @@ def run(ctx):
             got = stream(f'inventory:{lang}', pairs, None, 250)
         else:
             pairs = [(i, j) for i in ix for j in ix]
-            got = evaluate(pool.cats, pairs)
+            got, _ = evaluate(pool.cats, pairs)
             digest(f'inventory:{lang}', pairs, got)
             rows.append((lang, ix, got))
         for (i, j), (res, _, _) in got.items():
@@ -190,7 +207,9 @@ def run(ctx):
     atoms = [gen.mk_atom(b, f) for b in ('S', 'N', 'NP') for f in (None, 'X', 'nb', 'dcl', 'b')] + [Atom(','), Atom('conj'), Atom('LRB')]
     small2 = [pool.add(c) for c in gen.enum_cats(atoms, ['/', '\\', '|'], 2)]
     pairs = [(i, j) for i in small2 for j in small2]
-    stream('small<=2', pairs, 1500 if quick else 6000, 300 if quick else 1500)
+    if quick:
+        rng.shuffle(pairs)      # quick: all 980100 pairs unless the machine is too loaded to get through them in 40 s
+    stream('small<=2', pairs, 1500 if quick else 6000, 300 if quick else 1500, budget=40 if quick else None)
     if not quick:
         def rand_small(n):
             if n == 1:
@@ -267,6 +286,9 @@ def run(ctx):
         mal.append((a, b) if rng.random() < 0.5 else (b, a))
     mal += [(Functor(ja[0], '/', ja[1]), ja[3]), (Functor(ja[0], '/', gen.mk_atom('NP', 'nb')), ja[1]), (Functor(ja[0], '/', ja[1]), Atom('NP'))]
     stream('malformed', [(pool.add(x), pool.add(y)) for x, y in mal], None, 300 if quick else 3000)
+    for c in oddcats[:60] + [pool.cats[i] for i in small2[:40]]:
+        cases.append(f'D {ctab.add(c)} {gbool(gen.wf_py(c) and O.in_domain(c))}')
+        descr.append(('domain', str(c), 'synthetic', gen.wf_py(c) and O.in_domain(c)))
 
     # ---- 6. the seen-rule gate and the unary rules (same generated file; the theorems of C14 are about them) --------
     seen_src = gen.model_file('seen_rules.en.jsonnet')
@@ -326,7 +348,7 @@ def run(ctx):
     return ctx.finish(
         level='proof',
         rule='cases = ordered category pairs on which depccg.grammar.en.apply_binary_rules is run: pairs of the shipped inventories targets.en / '
-             'targets.en_rebank (quick: 24000 random pairs, all firing ones kept; thorough: all pairs), all pairs of the 990 categories of <= 2 atoms over '
+             'targets.en_rebank (quick: 24000 random pairs, all firing ones kept; thorough: all pairs), all pairs of the 990 categories of <= 2 atoms (quick: in random order, as many as 40 s allow - see stats pairs:small<=2) over '
              '{S,N,NP}x{none,X,nb,dcl,b} + {",",conj,LRB} with slashes / \\ | (thorough: + 800000 random pairs with a 3-atom member), instances of every schema '
              'built from inventory sub-categories with identical and feature-perturbed matched parts, rule closure (results paired with lexical categories), '
              'a malformed stream (feature triples, empty names) for the correspondence only, seen-rule sets and the unary table; non-trivial = at least one rule fires; '
